@@ -300,6 +300,51 @@ impl<C: ContentAddrStore> UnsealedState<C> {
     }
 }
 
+/// Read-only accessors used by the verification harness (never compiled into normal builds).
+#[cfg(melstf_verif)]
+impl<C: ContentAddrStore> UnsealedState<C> {
+    pub fn verif_network(&self) -> NetID {
+        self.network
+    }
+    pub fn verif_height(&self) -> BlockHeight {
+        self.height
+    }
+    pub fn verif_history(&self) -> novasmt::Tree<C> {
+        self.history.mapping.clone()
+    }
+    pub fn verif_coins(&self) -> novasmt::Tree<C> {
+        self.coins.inner().clone()
+    }
+    pub fn verif_pools(&self) -> novasmt::Tree<C> {
+        self.pools.mapping.clone()
+    }
+    pub fn verif_transactions(&self) -> Vec<Transaction> {
+        self.transactions.iter().cloned().collect()
+    }
+    pub fn verif_fee_pool(&self) -> CoinValue {
+        self.fee_pool
+    }
+    pub fn verif_fee_multiplier(&self) -> u128 {
+        self.fee_multiplier
+    }
+    pub fn verif_tips(&self) -> CoinValue {
+        self.tips
+    }
+    pub fn verif_dosc_speed(&self) -> u128 {
+        self.dosc_speed
+    }
+    pub fn verif_stakes(&self) -> StakeSet {
+        self.stakes.clone()
+    }
+}
+
+#[cfg(melstf_verif)]
+impl<C: ContentAddrStore> SealedState<C> {
+    pub fn verif_inner(&self) -> &UnsealedState<C> {
+        &self.0
+    }
+}
+
 /// SealedState represents an immutable state at a finalized block height.
 /// It cannot be constructed except through sealing a State or restoring from persistent storage.
 ///
